@@ -224,7 +224,7 @@ class ExprMixin:
             return self.obj_truth(v, st)
         if n == "Tuple":
             return z3.BoolVal(len(v.t) > 0)
-        if n == "fn":
+        if n == "fn" or n == "Cls":
             return z3.BoolVal(True)
         if n == "OptTuple":
             return z3.Not(v.t[0])
@@ -384,11 +384,24 @@ class ExprMixin:
                 to_sort_term(b, FLOAT) if b.ty != BOOL else z3.ToReal(z3.If(b.t, 1, 0))
         raise Unsupported(f"ordering between {a.ty} and {b.ty}")
 
+    def _cls_view(self, v, st):
+        """(is_none, tag) of a value that holds a class object (concrete, symbolic or optional), else None."""
+        if v.ty == FN and v.t[0] == "class":
+            return z3.BoolVal(False), z3.IntVal(class_id(v.t[1]))
+        if v.ty == CLS:
+            return z3.BoolVal(False), v.t
+        if v.ty.name == "Opt" and v.ty.args[0] == CLS:
+            return opt_of(v.ty).is_none(v.t), opt_of(v.ty).val(v.t)
+        return None
+
     def identical(self, a, b, st):
         if a.ty == NONE:
             return self.is_none(b, st)
         if b.ty == NONE:
             return self.is_none(a, st)
+        ca, cb = self._cls_view(a, st), self._cls_view(b, st)
+        if ca is not None and cb is not None and not (a.ty == FN and b.ty == FN):
+            return z3.And(z3.Not(ca[0]), z3.Not(cb[0]), ca[1] == cb[1])
         ra = is_reflike(a.ty) or (a.ty.name == "Opt" and is_reflike(a.ty.args[0]))
         rb = is_reflike(b.ty) or (b.ty.name == "Opt" and is_reflike(b.ty.args[0]))
         if ra and rb:
@@ -413,6 +426,8 @@ class ExprMixin:
     def equal(self, a, b, st):
         if a.ty == NONE or b.ty == NONE:
             return self.identical(a, b, st)
+        if self._cls_view(a, st) is not None and self._cls_view(b, st) is not None and not (a.ty == FN and b.ty == FN):
+            return self.identical(a, b, st)       # classes compare by identity
         if a.ty.name == "Opt" or b.ty.name == "Opt":
             na, nb = self.is_none(a, st), self.is_none(b, st)
             ia = self._inner(a)
@@ -520,6 +535,7 @@ class ExprMixin:
             if ta == INT and tb == INT:
                 return Val(INT, a.t + b.t)
             if ta == STR and tb == STR:
+                self.string_fold_facts(a.t, b.t, st)
                 return Val(STR, z3.Concat(a.t, b.t))
             if ta.name == "List" and tb.name == "List":
                 return self.list_concat(a, b, st)
